@@ -390,6 +390,8 @@ def edited_stream(ctx, n):
 
 
 def correspondence(ctx):
+    from props import c06
+    c06.collection_on_polytope_stream(ctx, ctx.budget(15, 150), prefix="C07")      # images of the original vertices, in order
     axes_stream(ctx, ctx.budget(40, 400))
     dual_quadric_stream(ctx, ctx.budget(45, 500))
     edited_stream(ctx, ctx.budget(20, 200))
